@@ -3,9 +3,27 @@ import CedarVerif.Lemmas.PartialSound6
 import CedarVerif.Lemmas.PartialReauth
 import CedarVerif.Lemmas.PartialFull
 import CedarVerif.Lemmas.PartialBridge
+import CedarVerif.Lemmas.PartialSubst5
 /-
 C13 — partial evaluation with unknowns is sound.  Property theorems only (helpers: Lemmas/Partial*.lean).
 Model: Cedar/Partial.lean (`pinterp`, `PartialResponse`, `reauthorize`).
+What is proved:
+  * `table_sound` (full);
+  * `pinterp_sound_partial` on `Frag` (reauthorize form; side condition `CallDRT` now discharged for EVERY extension
+    function by `callDRT_every`; hypotheses `DRT`/`StoreDRT` follow from `Value.Canon` by `drt_of_canon`);
+  * `pinterp_sound_subst` on `Frag2 σ` — the `evaluate ∘ substUnk` form of the statement, with unknown nodes in the
+    expression, `.`/`has` directly on record constructors (projection arm of `get_attr`), every extension function;
+    `pinterp_sound_partial2`: the reauthorize form on `Frag2 σ`;
+  * `reauthorize_eq_fresh` (given policy-level agreement), `reauthorize_eq_fresh_frag` (on `Frag`),
+    `reauthorize_eq_fresh_frag2` (on `Frag2 σ`, policies without unknown nodes in their text);
+  * `pinterpSoundFull_needs_cover`: the kept full statement is false for a substitution that leaves a typed unknown
+    undefined (typed-unknown short circuits) — it has to be read with σ defining every unknown.
+`Frag` and `Frag2 σ` are formally incomparable only because `Frag2.record` asks for pairwise distinct keys (what the parser
+and `Expr::record` guarantee; without it `get_attr`'s projection — first binding — and record evaluation — last binding —
+differ in the model).
+Still missing w.r.t. `PinterpSoundFull`: residual contexts (`Context::Residual`), unknown attribute / tag values in
+entities, `.partial()` stores (`Dereference::Residual`), calls of the `unknown` function in the policy text (no concrete
+counterpart: `Expr::substitute` does not look into them).
 -/
 namespace Cedar.C13
 open Cedar
@@ -58,6 +76,28 @@ def PinterpSoundFull : Prop :=
     | .err _ => ∃ c, evaluate req es env (e.substUnk σ) = .error c
     | .fuel => True
     | .panic => True
+
+/-- **the full statement needs a covering substitution** (observation about the *statement*, not about the code):
+`PinterpSoundFull` as written only asks σ to respect the annotations of the unknowns it defines.  The typed-unknown short
+circuits (`unknown(x: A) == B::"b"` is `false`, `… is A` is `true`) answer for every later value of the declared type,
+whereas evaluating the substituted expression with `x` still unknown is an error; so for σ = ∅ the statement fails.
+`pinterp_sound_subst` therefore requires σ to define every unknown node (`UnkOK` in `Frag2.unknown`) — the same
+reading as "for every substitution *of the unknowns*" in DESIGN.md. -/
+theorem pinterpSoundFull_needs_cover : ¬ PinterpSoundFull := by
+  intro h
+  let preq : PRequest := ⟨.known ⟨"U", "a"⟩, .known ⟨"A", "x"⟩, .known ⟨"R", "r"⟩, some (.value [])⟩
+  let req : Request := ⟨⟨"U", "a"⟩, ⟨"A", "x"⟩, ⟨"R", "r"⟩, []⟩
+  let e : Expr := .binaryApp .eq (.unknown "x" (some (.entity "A"))) (.lit (.entityUID ⟨"B", "b"⟩))
+  have hC : ConcretizesFull [] preq req := ⟨rfl, rfl, rfl, rfl⟩
+  have hS : StoreCompletes [] ⟨[], false⟩ [] := by intro u; rfl
+  have hR : RespectsTypes [] (e.unknowns ++ preq.unknowns ++ (⟨[], false⟩ : PEntities).unknowns) := by
+    intro n t v _ hl; simp [lookupKV] at hl
+  have := h [] preq ⟨[], false⟩ req [] [] e 3 hC hS hR
+  have hx : pinterp [] preq ⟨[], false⟩ [] 3 e = .val (.prim (.bool false)) := rfl
+  rw [hx] at this
+  rcases this with ⟨v, w, _, h2, _⟩ | ⟨c, c', h1, _⟩
+  · simp [e, Expr.substUnk, lookupKV, evaluate] at h2
+  · simp [Value.toExpr, Expr.substUnk, evaluate] at h1
 
 /-- **pinterp_sound_partial**: `PinterpSoundFull` restricted to the fragment `Frag` (literals, `principal`/
 `action`/`resource`/`context` incl. unknown — typed or untyped — principal/action/resource and a missing
@@ -212,5 +252,178 @@ theorem reauthorize_eq_fresh_frag (σ : Mapper) (req : Request) (es : Entities) 
       (∀ id, id ∈ pr2.concretize.reasons ↔ id ∈ (isAuthorized req es ps).reasons) :=
   reauthorize_core σ preq (.ofConcrete es) ps req es hreq hslot
     (fun p hp => policyAgrees_of_frag σ req es hctx hstore preq hC p (hfrag p hp).1 (hfrag p hp).2 (hfuel2 p hp) (hfuel1 p hp))
+
+/-! ### the larger fragment `Frag2 σ` and the substitution form -/
+
+/-- **callDRT_every**: the side condition `CallDRT` of `Frag.call` holds for *every* extension function — constructors
+(`decimal`, `ip`, `datetime`, `duration`), `offset`, `durationSince`, `toDate`, `toTime` included: what they return lies in
+the value range of the Rust types (i64 payloads, u32/u128 addresses with prefix ≤ 32/128 — proved from the parsers and
+the checked arithmetic), and on that range the canonical constructor call `Ext.toExpr` parses back to the value (decimal,
+duration, datetime, IPv4: the renderings coincide with the JSON canonical renderings of C10 and `extRoundTrip_*`'s
+parse lemmas are reused; IPv6: the model renders the eight groups uncompressed, so IPv4-mapped addresses round-trip too). -/
+theorem callDRT_every (fn : String) : CallDRT fn := callDRT_all fn
+
+/-- values as Rust holds them (`Value.Canon`: canonical sets, key-sorted records, extension payloads in range) satisfy
+the round-trip hypotheses `DRT` / `StoreDRT` of `pinterp_sound_partial`. -/
+theorem drt_of_canon (v : Value) (h : v.Canon) : v.DRT := DRT_of_canon v h
+
+example : CallDRT "ip" ∧ (Value.ext (.ipaddr true 0xffff01020304 128)).DRT ∧ (Value.ext (.decimal (-15000))).DRT :=
+  ⟨callDRT_every _, drt_of_canon _ (show _ ∧ _ from ⟨by decide, by decide⟩), drt_of_canon _ (show inI64 (-15000) = true by decide)⟩
+
+/-- **pinterp_sound_subst** — `PinterpSoundFull` (the `evaluate ∘ substUnk` form) on the fragment `Frag2 σ`, a concrete
+store and a value-or-missing context.  `Frag2 σ`: every expression form — literals, variables, slots, **unknown nodes**
+(σ must define them, with a canonical value of the annotated type), `&&`, `||`, `if`, all unary and binary operators,
+`.`/`has` on anything (**including record constructors**: `get_attr`'s projection arm, which re-interprets a component of
+the residual record, and the non-projectable arm), `like`, `is`, sets, records with pairwise distinct keys, **every
+extension function** except the `unknown` function itself.  Hypotheses: the first-pass mapper is part of σ (`MapLE`; `[]`
+in `is_authorized_core`), σ concretises the request, context / attribute / tag values are values as Rust holds them
+(`Value.Canon`).  Conclusion: a value is the value of the substituted expression (and converting it back evaluates to
+it); an error means the substituted expression errors; a residual, substituted, evaluates like the substituted
+expression (equal values — strict equality, stronger than `Value.beq` — or both errors).
+Proved by induction on the recursion budget (the re-interpreted record component is not a subterm). -/
+theorem pinterp_sound_subst (σ : Mapper) (req : Request) (es : Entities) (env : SlotEnv)
+    (hctx : (Value.record req.context).Canon) (hstore : PS.StoreCanon es) {e : Expr} (hf : PS.Frag2 σ e)
+    (m0 : Mapper) (preq : PRequest) (n : Nat) (hm : PS.MapLE m0 σ) (hC : Concretizes σ preq req) :
+    match pinterp m0 preq (.ofConcrete es) env n e with
+    | .val v => evaluate req es env (v.toExpr.substUnk σ) = .ok v ∧ evaluate req es env (e.substUnk σ) = .ok v
+    | .err _ => ∃ c, evaluate req es env (e.substUnk σ) = .error c
+    | .res r => PS.Agree (evaluate req es env (r.substUnk σ)) (evaluate req es env (e.substUnk σ))
+    | .fuel => True
+    | .panic => True := by
+  have h := PS.pinterp_sound2 σ req es env hctx hstore m0 preq hm hC n e hf
+  cases hx : pinterp m0 preq (.ofConcrete es) env n e with
+  | val v => rw [hx] at h; exact ⟨PS.Y_toExpr σ req es env h.2, h.1⟩
+  | err c => rw [hx] at h; exact h
+  | res r => rw [hx] at h; exact h.1
+  | fuel => trivial
+  | panic => trivial
+
+/-- **pinterp_sound_partial2** — the `reauthorize` form on `Frag2 σ`: the residual, re-interpreted the way `reauthorize`
+does it (same interpreter, mapper σ, concretised request and store), agrees with the concrete evaluation of the
+substituted expression.  Obtained from `pinterp_sound_subst` and the bridge "with a mapper that defines every unknown,
+partial interpretation on a concrete request and store leaves no residual and computes `evaluate ∘ substUnk σ`". -/
+theorem pinterp_sound_partial2 (σ : Mapper) (req : Request) (es : Entities) (env : SlotEnv)
+    (hctx : (Value.record req.context).Canon) (hstore : PS.StoreCanon es) {e : Expr} (hf : PS.Frag2 σ e)
+    (m0 : Mapper) (preq : PRequest) (n : Nat) (hm : PS.MapLE m0 σ) (hC : Concretizes σ preq req) :
+    match pinterp m0 preq (.ofConcrete es) env n e with
+    | .val v => evaluate req es env (e.substUnk σ) = .ok v
+    | .err _ => ∃ c, evaluate req es env (e.substUnk σ) = .error c
+    | .res r => ∀ n', Sem (pinterp σ (.ofConcrete req) (.ofConcrete es) env n' r) (evaluate req es env (e.substUnk σ))
+    | .fuel => True
+    | .panic => True := by
+  have h := PS.pinterp_sound2 σ req es env hctx hstore m0 preq hm hC n e hf
+  cases hx : pinterp m0 preq (.ofConcrete es) env n e with
+  | val v => rw [hx] at h; exact h.1
+  | err c => rw [hx] at h; exact h
+  | res r => rw [hx] at h; exact fun n' => PS.sem_of_agree (PS.bridge σ req es env hctx hstore h.2.2 n') h.1
+  | fuel => trivial
+  | panic => trivial
+
+/-- non-vacuity (a): `!({a: principal, b: 1}.a in Group::"g")` with a typed unknown principal — the record constructor
+    leaves a projectable residual record, `get_attr` projects into it and re-interprets the component; the residual is
+    `!(unknown(principal) in Group::"g")`. -/
+example :
+    let σ : Mapper := [("principal", .prim (.entityUID ⟨"User", "u"⟩))]
+    let req : Request := ⟨⟨"User", "u"⟩, ⟨"A", "x"⟩, ⟨"R", "r"⟩, []⟩
+    let preq : PRequest := ⟨.unknown (some "User"), .known ⟨"A", "x"⟩, .known ⟨"R", "r"⟩, some (.value [])⟩
+    let e : Expr := .unaryApp .not (.binaryApp .mem (.getAttr (.record [("a", .var .principal), ("b", .lit (.int 1))]) "a")
+                      (.lit (.entityUID ⟨"Group", "g"⟩)))
+    let r : Expr := .unaryApp .not (.binaryApp .mem (.unknown "principal" (some (.entity "User"))) (.lit (.entityUID ⟨"Group", "g"⟩)))
+    pinterp [] preq (.ofConcrete []) [] 10 e = .res r ∧
+    PS.Agree (evaluate req [] [] (r.substUnk σ)) (evaluate req [] [] (e.substUnk σ)) ∧
+    (⟨"q", .permit, e.substUnk σ, []⟩ : Policy).outcome req [] = .sat := by
+  intro σ req preq e r
+  have hf : PS.Frag2 σ e := by
+    refine .unaryApp .not (.binaryApp .mem (.getAttr "a" (.record (by decide) ?_)) (.lit _))
+    intro kv hkv
+    simp only [List.mem_cons, List.not_mem_nil, or_false] at hkv
+    rcases hkv with rfl | rfl
+    · exact .var _
+    · exact .lit _
+  have hC : Concretizes σ preq req := ⟨⟨rfl, rfl⟩, rfl, rfl, rfl⟩
+  have hctx : (Value.record req.context).Canon := ⟨trivial, trivial⟩
+  have hst : PS.StoreCanon [] := by intro u d h; cases h
+  have hx : pinterp [] preq (.ofConcrete []) [] 10 e = .res r := rfl
+  have h := pinterp_sound_subst σ req [] [] hctx hst hf [] preq 10 (PS.MapLE.nil σ) hC
+  rw [hx] at h
+  exact ⟨hx, h, by decide +kernel⟩
+
+/-- non-vacuity (b), (c): an unknown node in the expression and a constructor call — `unknown(x: long) < 5 &&
+    context.lim.lessThan(decimal("1.5"))` with a missing context; σ maps `x` and `context`. -/
+example :
+    let σ : Mapper := [("x", .prim (.int 3)), ("context", .record [("lim", .ext (.decimal 10000))])]
+    let req : Request := ⟨⟨"User", "u"⟩, ⟨"A", "x"⟩, ⟨"R", "r"⟩, [("lim", .ext (.decimal 10000))]⟩
+    let preq : PRequest := ⟨.known ⟨"User", "u"⟩, .known ⟨"A", "x"⟩, .known ⟨"R", "r"⟩, none⟩
+    let e : Expr := .and (.binaryApp .less (.unknown "x" (some .long)) (.lit (.int 5)))
+                      (.call "lessThan" [.getAttr (.var .context) "lim", .call "decimal" [.lit (.string "1.5")]])
+    PS.Frag2 σ e ∧ Concretizes σ preq req ∧ (∃ r, pinterp [] preq (.ofConcrete []) [] 10 e = .res r) ∧
+    (⟨"q", .permit, e.substUnk σ, []⟩ : Policy).outcome req [] = .sat := by
+  intro σ req preq e
+  refine ⟨?_, ⟨rfl, rfl, rfl, rfl⟩, ⟨_, rfl⟩, by decide +kernel⟩
+  refine .and (.binaryApp .less (.unknown "x" _ ⟨_, rfl, trivial, ?_⟩) (.lit _)) (.call "lessThan" (by decide) ?_)
+  · intro t ht; cases ht; rfl
+  · intro x hx
+    simp only [List.mem_cons, List.not_mem_nil, or_false] at hx
+    rcases hx with rfl | rfl
+    · exact .getAttr "lim" (.var _)
+    · refine .call "decimal" (by decide) ?_
+      intro y hy
+      simp only [List.mem_cons, List.not_mem_nil, or_false] at hy
+      subst hy; exact .lit _
+
+/-- **reauthorize_eq_fresh_frag2**: `reauthorize_eq_fresh` without a soundness hypothesis on the larger fragment: static
+policies without unknown nodes in their text (what the parser produces; `unknown("x")` *calls* are excluded from `Frag2`)
+whose conditions lie in `Frag2 σ`, a concrete store and a request with canonical values, σ concretising the partial
+request: `reauthorize σ` returns the decision and determining policies of the fresh concrete authorization. -/
+theorem reauthorize_eq_fresh_frag2 (σ : Mapper) (req : Request) (es : Entities) (preq : PRequest) (ps : List Policy)
+    (hctx : (Value.record req.context).Canon) (hstore : PS.StoreCanon es) (hC : Concretizes σ preq req)
+    (hfrag : ∀ p, p ∈ ps → p.env = [] ∧ PS.Frag2 σ p.condition ∧ p.condition.unknowns = [])
+    (hreq : (isAuthorizedCore [] preq (.ofConcrete es) ps).concretizeRequest σ = .ok (.ofConcrete req))
+    (hslot : (isAuthorizedCore [] preq (.ofConcrete es) ps).residualPoliciesPanic = false)
+    (hfuel1 : ∀ p, p ∈ ps → partialEvaluate [] preq (.ofConcrete es) p ≠ .stuck)
+    (hfuel2 : ∀ p, p ∈ ps → ∀ q, residualPolicy (partialEvaluate [] preq (.ofConcrete es) p) p = some q →
+      partialEvaluate σ (.ofConcrete req) (.ofConcrete es) q ≠ .stuck) :
+    ∃ pr2, (isAuthorizedCore [] preq (.ofConcrete es) ps).reauthorize σ (.ofConcrete es) = .ok pr2 ∧
+      pr2.decision = some (isAuthorized req es ps).decision ∧
+      pr2.concretize.decision = (isAuthorized req es ps).decision ∧
+      (∀ id, id ∈ pr2.concretize.reasons ↔ id ∈ (isAuthorized req es ps).reasons) :=
+  reauthorize_core σ preq (.ofConcrete es) ps req es hreq hslot
+    (fun p hp => PS.policyAgrees_of_frag2 σ req es hctx hstore preq hC p (hfrag p hp).1 (hfrag p hp).2.1
+      (PS.substUnk_of_noUnk σ _ (hfrag p hp).2.2) (hfuel2 p hp) (hfuel1 p hp))
+
+/-- non-vacuity of `reauthorize_eq_fresh_frag2`: a permit whose condition projects out of a record constructor holding
+    the unknown principal; all hypotheses hold and the residual re-evaluates. -/
+example :
+    let σ : Mapper := [("principal", .prim (.entityUID ⟨"User", "u"⟩))]
+    let req : Request := ⟨⟨"User", "u"⟩, ⟨"A", "x"⟩, ⟨"R", "r"⟩, []⟩
+    let preq : PRequest := ⟨.unknown (some "User"), .known ⟨"A", "x"⟩, .known ⟨"R", "r"⟩, some (.value [])⟩
+    let p1 : Policy := ⟨"p1", .permit, .unaryApp .not (.binaryApp .mem (.getAttr (.record [("a", .var .principal), ("b", .lit (.int 1))]) "a")
+                      (.lit (.entityUID ⟨"Group", "g"⟩))), []⟩
+    (isAuthorizedCore [] preq (.ofConcrete []) [p1]).decision = none ∧
+    ∃ pr2, (isAuthorizedCore [] preq (.ofConcrete []) [p1]).reauthorize σ (.ofConcrete []) = .ok pr2 ∧
+      pr2.decision = some (isAuthorized req [] [p1]).decision ∧ (isAuthorized req [] [p1]).decision = .allow := by
+  intro σ req preq p1
+  have hf : PS.Frag2 σ p1.condition := by
+    refine .unaryApp .not (.binaryApp .mem (.getAttr "a" (.record (by decide) ?_)) (.lit _))
+    intro kv hkv
+    simp only [List.mem_cons, List.not_mem_nil, or_false] at hkv
+    rcases hkv with rfl | rfl
+    · exact .var _
+    · exact .lit _
+  have hC : Concretizes σ preq req := ⟨⟨rfl, rfl⟩, rfl, rfl, rfl⟩
+  have hctx : (Value.record req.context).Canon := ⟨trivial, trivial⟩
+  have hst : PS.StoreCanon [] := by intro u d h; cases h
+  obtain ⟨pr2, h1, h2, _, _⟩ := reauthorize_eq_fresh_frag2 σ req [] preq [p1] hctx hst hC
+    (by intro p hp; simp only [List.mem_cons, List.not_mem_nil, or_false] at hp; subst hp; exact ⟨rfl, hf, rfl⟩)
+    rfl rfl
+    (by intro p hp; simp only [List.mem_cons, List.not_mem_nil, or_false] at hp; subst hp
+        have h0 : partialEvaluate [] preq (.ofConcrete []) p1 = .residual (.unaryApp .not (.binaryApp .mem (.unknown "principal" (some (.entity "User"))) (.lit (.entityUID ⟨"Group", "g"⟩)))) := rfl
+        rw [h0]; intro h; cases h)
+    (by intro p hp q hq; simp only [List.mem_cons, List.not_mem_nil, or_false] at hp; subst hp
+        have h0 : residualPolicy (partialEvaluate [] preq (.ofConcrete []) p1) p1 = some ⟨"p1", .permit, residualCondition (.unaryApp .not (.binaryApp .mem (.unknown "principal" (some (.entity "User"))) (.lit (.entityUID ⟨"Group", "g"⟩)))), []⟩ := rfl
+        rw [h0] at hq; cases hq
+        have h1 : partialEvaluate σ (.ofConcrete req) (.ofConcrete []) ⟨"p1", .permit, residualCondition (.unaryApp .not (.binaryApp .mem (.unknown "principal" (some (.entity "User"))) (.lit (.entityUID ⟨"Group", "g"⟩)))), []⟩ = .sat := rfl
+        rw [h1]; intro h; cases h)
+  exact ⟨rfl, pr2, h1, h2, by decide +kernel⟩
 
 end Cedar.C13
